@@ -30,7 +30,10 @@ func isaReplay(w *World, o checkOpts, ob *Obligation, ct *Contract) *ReplayResul
 		return &ReplayResult{Reason: "no ISA entry"}
 	}
 	if e.PerLane {
-		return &ReplayResult{Reason: "replay of per-lane (vector) counterexamples not implemented"}
+		if ob.CTI == nil {
+			return &ReplayResult{Reason: "no concrete lane input: the lane-loop invariant clauses held, the failure is outside the loop"}
+		}
+		return isaReplayLane(w, o, ob, ct, e)
 	}
 	model := parseModel(ob.Model)
 	get := func(label string) (*big.Int, bool) {
@@ -175,6 +178,176 @@ func isaReplay(w *World, o checkOpts, ob *Obligation, ct *Contract) *ReplayResul
 		rr.Reason = "the state observed after running the real handler satisfies the obligation, or contradicts the engine's semantics (spurious counterexample)"
 	default:
 		rr.Reason = "solver could not evaluate the obligation on the observed state"
+	}
+	return rr
+}
+
+// isaReplayLane replays a failed lane-loop step clause: the model gives one lane, the operand
+// values of that lane, EXEC and VCC; the real handler is run on a real Wavefront with exactly that
+// lane enabled, and the destination cells / VCC bit of the lane are fed back to the solver.
+func isaReplayLane(w *World, o checkOpts, ob *Obligation, ct *Contract, e *IsaEntry) *ReplayResult {
+	cti := ob.CTI
+	model := parseModel(cti.Model)
+	get := func(label string) (*big.Int, bool) {
+		t, ok := cti.Inputs[label]
+		if !ok {
+			return nil, false
+		}
+		return modelBig(model, t)
+	}
+	s64 := func(b *big.Int) int64 {
+		if b.Bit(63) == 1 {
+			return new(big.Int).Sub(b, pow2(64)).Int64()
+		}
+		return b.Int64()
+	}
+	laneB, ok := get("lane")
+	if !ok || laneB.Cmp(big.NewInt(64)) >= 0 {
+		return &ReplayResult{Reason: "model has no lane value"}
+	}
+	lane := laneB.Int64()
+	fn := ct.Fn
+	pkgName := fn.Pkg.Pkg.Name()
+	inEmu := pkgName == "emu"
+	var sb strings.Builder
+	fmt.Fprintf(&sb, "package %s\n\nimport (\n\t\"encoding/binary\"\n\t\"fmt\"\n\t\"math\"\n\t\"testing\"\n\n\t\"github.com/sarchlab/mgpusim/v4/amd/insts\"\n", pkgName)
+	if !inEmu {
+		sb.WriteString("\t\"github.com/sarchlab/mgpusim/v4/amd/emu\"\n")
+	}
+	sb.WriteString(")\n\nvar _ = math.Pi\nvar _ = binary.LittleEndian\n\n")
+	wfNew := "NewWavefront(nil)"
+	if !inEmu {
+		wfNew = "emu.NewWavefront(nil)"
+		sb.WriteString("type gocvState struct {\n\t*emu.Wavefront\n\ti *insts.Inst\n}\n\nfunc (s *gocvState) Inst() *insts.Inst { return s.i }\n\n")
+	}
+	sb.WriteString("func gocvOp(ot, rt, rc int, iv int64, lit uint32, fl uint64) *insts.Operand {\n\to := &insts.Operand{OperandType: insts.OperandType(ot), RegCount: rc, IntValue: iv, LiteralConstant: lit, FloatValue: math.Float64frombits(fl)}\n\tif ot == insts.RegOperand {\n\t\to.Register = insts.Regs[insts.RegType(rt)]\n\t}\n\treturn o\n}\n\n")
+	sb.WriteString("func TestGocvReplay(t *testing.T) {\n\tdefer func() {\n\t\tif r := recover(); r != nil {\n\t\t\tfmt.Printf(\"GOCV_PANIC %v\\n\", r)\n\t\t}\n\t}()\n")
+	fmt.Fprintf(&sb, "\twf := %s\n\tinst := insts.NewInst()\n", wfNew)
+	rr := &ReplayResult{Inputs: map[string]string{"lane": fmt.Sprint(lane)}, Observed: map[string]string{}}
+	regS0, regS101 := w.instsConst("S0"), w.instsConst("S101")
+	regV0, regV255 := w.instsConst("V0"), w.instsConst("V255")
+	var ops []string
+	for opn := range e.Ops {
+		ops = append(ops, opn)
+	}
+	sort.Strings(ops)
+	dstIdx := int64(-1)
+	for _, opn := range ops {
+		ot, ok1 := get(opn + ".type")
+		rt, ok2 := get(opn + ".regtype")
+		rc, ok3 := get(opn + ".regcount")
+		iv, ok4 := get(opn + ".int")
+		lit, ok5 := get(opn + ".lit")
+		fl, ok6 := get(opn + ".float")
+		val, ok7 := get(opn + ".value")
+		if !(ok1 && ok2 && ok3 && ok4 && ok5 && ok6 && ok7) {
+			return &ReplayResult{Reason: "model lacks descriptor values for operand " + opn}
+		}
+		isReg := ot.Int64() == w.instsConst("RegOperand")
+		rtv := int64(0)
+		if isReg {
+			rtv = s64(rt)
+		}
+		fmt.Fprintf(&sb, "\tinst.%s = gocvOp(%d, %d, %d, %d, %d, %d)\n", isaOperandField[opn], ot.Int64(), rtv, s64(rc), s64(iv), lit.Uint64(), fl.Uint64())
+		rr.Inputs[opn] = fmt.Sprintf("type=%d regtype=%d regcount=%d int=%d lit=%#x value@lane=%#x", ot.Int64(), rtv, s64(rc), s64(iv), lit.Uint64(), val)
+		switch {
+		case isReg && rtv >= regV0 && rtv <= regV255:
+			idx := rtv - regV0
+			if opn == "D" {
+				dstIdx = idx
+			}
+			fmt.Fprintf(&sb, "\tbinary.LittleEndian.PutUint32(wf.VRegFile[%d:], %d)\n", lane*1024+idx*4, new(big.Int).And(val, mask(32)).Uint64())
+			if e.Ops[opn] == 64 && idx+1 <= 255 {
+				fmt.Fprintf(&sb, "\tbinary.LittleEndian.PutUint32(wf.VRegFile[%d:], %d)\n", lane*1024+(idx+1)*4, new(big.Int).Rsh(val, 32).Uint64())
+			}
+		case isReg && rtv >= regS0 && rtv <= regS101:
+			idx := rtv - regS0
+			fmt.Fprintf(&sb, "\tbinary.LittleEndian.PutUint32(wf.SRegFile[%d:], %d)\n", idx*4, new(big.Int).And(val, mask(32)).Uint64())
+			if e.Ops[opn] == 64 && idx+1 <= regS101-regS0 {
+				fmt.Fprintf(&sb, "\tbinary.LittleEndian.PutUint32(wf.SRegFile[%d:], %d)\n", (idx+1)*4, new(big.Int).Rsh(val, 32).Uint64())
+			}
+		}
+	}
+	if dstIdx < 0 {
+		return &ReplayResult{Reason: "destination is not a vector register in the model"}
+	}
+	for _, g := range []string{"SCC", "VCC", "EXEC", "PC", "M0"} {
+		v, ok := get(g)
+		if !ok {
+			return &ReplayResult{Reason: "model lacks " + g}
+		}
+		rr.Inputs[g] = fmt.Sprintf("%#x", v)
+		switch g {
+		case "SCC":
+			fmt.Fprintf(&sb, "\twf.SetSCC(%d)\n", v.Uint64())
+		case "M0":
+			fmt.Fprintf(&sb, "\twf.M0 = %d\n", v.Uint64())
+		default:
+			fmt.Fprintf(&sb, "\twf.Set%s(%d)\n", g, v.Uint64())
+		}
+	}
+	if inEmu {
+		sb.WriteString("\twf.inst = inst\n\tvar state InstEmuState = wf\n")
+	} else {
+		sb.WriteString("\tvar state emu.InstEmuState = &gocvState{wf, inst}\n")
+	}
+	fmt.Fprintf(&sb, "\tNewALU(nil).%s(state)\n", fn.Name())
+	fmt.Fprintf(&sb, "\tfmt.Printf(\"GOCV_OUT VCC %%d\\n\", wf.VCC())\n\tfmt.Printf(\"GOCV_OUT Dcell0 %%d\\n\", binary.LittleEndian.Uint32(wf.VRegFile[%d:]))\n", lane*1024+dstIdx*4)
+	if dstIdx+1 <= 255 {
+		fmt.Fprintf(&sb, "\tfmt.Printf(\"GOCV_OUT Dcell1 %%d\\n\", binary.LittleEndian.Uint32(wf.VRegFile[%d:]))\n", lane*1024+(dstIdx+1)*4)
+	}
+	sb.WriteString("\tfmt.Println(\"GOCV_DONE\")\n}\n")
+	rr.TestSource = sb.String()
+	pkgDir := filepath.Join(o.repo, strings.TrimPrefix(ct.PkgPath, "github.com/sarchlab/mgpusim/v4/"))
+	out, err := runOverlayTest(o, pkgDir, sb.String(), ob.Name)
+	rr.Output = trunc(out, 3000)
+	if err != nil && !strings.Contains(out, "GOCV_") {
+		rr.Reason = "replay test did not run: " + err.Error()
+		return rr
+	}
+	if strings.Contains(out, "GOCV_PANIC") {
+		rr.Reason = "real handler panicked on the model input"
+		return rr
+	}
+	var pins []string
+	var labels []string
+	for k := range cti.Inputs {
+		labels = append(labels, k)
+	}
+	sort.Strings(labels)
+	for _, k := range labels {
+		t := cti.Inputs[k]
+		if v, ok := model[t.S]; ok {
+			pins = append(pins, fmt.Sprintf("(assert (= %s %s))", t.S, v))
+		}
+	}
+	for _, m := range regexp.MustCompile(`GOCV_OUT (\S+) (\d+)`).FindAllStringSubmatch(out, -1) {
+		rr.Observed[m[1]] = m[2]
+		n, _ := new(big.Int).SetString(m[2], 10)
+		if m[1] == "VCC" {
+			bit := new(big.Int).And(new(big.Int).Rsh(n, uint(lane)), big.NewInt(1))
+			for name, t := range cti.Results {
+				if strings.HasPrefix(name, "accbit.") && strings.Contains(cti.Name, strings.TrimPrefix(name, "accbit.")) {
+					pins = append(pins, fmt.Sprintf("(assert (= %s %s))", t.S, BVLit(bit, 64).S))
+				}
+			}
+			continue
+		}
+		if t, ok := cti.Results[m[1]]; ok {
+			pins = append(pins, fmt.Sprintf("(assert (= %s %s))", t.S, BVLit(n, bvWidth(t.Sort)).S))
+		}
+	}
+	q := cti.Query(false)
+	q = strings.Replace(q, "(check-sat)", strings.Join(pins, "\n")+"\n(check-sat)", 1)
+	v := decide(q, 30, false)
+	rr.Inputs["clause"] = cti.Name
+	switch v.Answer {
+	case "sat":
+		rr.Reproduced = true
+	case "unsat":
+		rr.Reason = "the lane state observed after running the real handler satisfies the clause, or contradicts the engine's semantics (spurious counterexample)"
+	default:
+		rr.Reason = "solver could not evaluate the clause on the observed lane state"
 	}
 	return rr
 }
